@@ -136,6 +136,8 @@ class Smoother:
                             preds.add("nan")
                         elif p == f"isinf[elem[{series}]]":
                             preds.add("inf")
+                        elif p == f"not[isfinite[elem[{series}]]]":      # not finite <=> NaN or +-inf
+                            preds.update(("nan", "inf"))
                         else:
                             mm = re.fullmatch(r"eq0\[-1\*elem\[" + series + r"\] \+ (\w+)\]", p) or re.fullmatch(r"eq0\[elem\[" + series + r"\] \+ -1\*(\w+)\]", p)
                             if mm:
